@@ -51,15 +51,24 @@ func init() {
 	})
 	register(&propDef{
 		ID: "C01",
-		Explanation: "TODO",
+		Explanation: "bytecount: forward dataflow over go/cfg of fasta.(*Writer).Write, fastq.(*Writer).Write and writeHeader (and any other (int, error) method of a type with an io.Writer field): after every emitting call (io.Writer.Write, io.WriteString, fmt.Fprint*, module (int, error) writers) its count is pending until added to the result; a pending count at a success return, a plain assignment overwriting accumulated bytes, or a discarded count is a violation (returns inside `if err != nil` are error exits). lineio/fragments: both readers join ReadLine fragments before classifying a line and never retain bufio's buffer (physical lines > 4096 bytes). tables/markers: the constants the writers emit ('>' / '@' / '+' / \"+\\n\") equal the constants the readers classify on. tables/quality: Qphred.Encode and Encoding.DecodeToQphred agree on the offset of every Phred-offset encoding.",
+		NotDecided:  "that parsed names, descriptions, letters and scores equal what was written (value-level); header splitting; the four-state FASTQ classifier; empty sequences.",
+		Assumptions: []string{"fmt.Fprint*/io.Writer.Write/io.WriteString report the bytes they wrote", "returns inside `if err != nil` are error exits whose count is not part of the property"},
 		Run: func(c *Ctx) {
-			c.guard("bytecount", func() { ruleByteCount(c, "bytecount", "io/seqio/fasta", "io/seqio/fastq"); c.floor("bytecount", 14) })
+			seqs := []string{"io/seqio/fasta", "io/seqio/fastq"}
+			c.guard("bytecount", func() { ruleByteCount(c, "bytecount", seqs...); c.floor("bytecount", 14) })
+			c.guard("lineio/fragments", func() { ruleFragments(c, "lineio/fragments", seqs...); c.floor("lineio/fragments", 8) })
+			c.guard("tables/markers", func() { ruleMarkers(c); c.floor("tables/markers", 5) })
+			c.guard("tables/quality", func() { ruleQuality(c) })
 		},
 	})
 	register(&propDef{
 		ID: "C02",
-		Explanation: "TODO",
+		Explanation: "convpair: in package gff the start/end fields are derived from the Start()/End() methods; every value parsed from text (strconv.* or a same-package parse helper, followed through := locals) that is stored into a start field is the direct result of feat.OneToZero, values stored into end fields are not converted; every fmt.Fprint* argument in a gff.Writer method that reads a start field or calls .Start() is wrapped in feat.ZeroToOne, end reads are not converted — so GFF text is 1-based inclusive and features 0-based half-open on every path. bytecount: as C01, for bed.(*Writer).Write (incl. its deferred newline closure), gff.(*Writer).Write (incl. the deferred closure and the inline-sequence branch), WriteMetaData, WriteComment.",
+		NotDecided:  "equality of every field after a round trip, float formatting, attribute splitting, BED column-prefix semantics (reflect-driven format).",
+		Assumptions: []string{"feat.OneToZero/ZeroToOne implement the 1-based/0-based pair (their bodies are value-level)", "fmt.Fprint* report the bytes they wrote"},
 		Run: func(c *Ctx) {
+			c.guard("convpair", func() { ruleConvPair(c, "convpair"); c.floor("convpair", 12) })
 			c.guard("bytecount", func() { ruleByteCount(c, "bytecount", "io/featio/bed", "io/featio/gff"); c.floor("bytecount", 28) })
 		},
 	})
